@@ -26,7 +26,9 @@ import (
 //
 //	cfg limit=<n> cache=<0|1> inst=<1..3> comp=<0|1>
 //	run <ex|pr|exh|prh|dyn> <ex|pr> <hdr|-> <ilogs> <ok|f<k>|p<k>> <decl> <prog> <route> <inputs>
-//	    inputs := "-" | in ("," in)*    in := (s|c|b) ":" c<vals> | "x"      (x = cancel)
+//	    inputs := "-" | in ("," in)*    in := (s|c|b) ":" c<vals> [":" khex "=" vhex (";" khex "=" vhex)*] | "x"
+//	                                    (x = cancel; the optional third field is the client's own metadata on the
+//	                                    input batch: sorted, unique, none of the transport's keys)
 //	    an optional last word z<n> | r<n> puts n bytes of compressible / incompressible ballast into the
 //	    stream state, so the cursor tokens (gob + zstd + seal) span sizes from 100 B to over 1 MiB; the
 //	    model ignores it: behaviour must not depend on the size of the state
@@ -126,6 +128,7 @@ type c11Input struct {
 	kind   string // s c b
 	vals   []int64
 	cancel bool
+	mk, mv []string // the client's own custom metadata on the input batch
 }
 
 func parseC11Run(f []string) (*c11Session, bool) {
@@ -198,15 +201,32 @@ func parseC11Run(f []string) (*c11Session, bool) {
 				s.inputs = append(s.inputs, c11Input{cancel: true})
 				continue
 			}
-			kv := strings.SplitN(in, ":", 2)
-			if len(kv) != 2 || (kv[0] != "s" && kv[0] != "c" && kv[0] != "b") {
+			kv := strings.SplitN(in, ":", 3)
+			if len(kv) < 2 || (kv[0] != "s" && kv[0] != "c" && kv[0] != "b") {
 				return nil, false
 			}
 			vals, ok := parseVals(kv[1])
 			if !ok {
 				return nil, false
 			}
-			s.inputs = append(s.inputs, c11Input{kind: kv[0], vals: vals})
+			inp := c11Input{kind: kv[0], vals: vals}
+			if len(kv) == 3 {
+				prev := ""
+				for i, e := range strings.Split(kv[2], ";") {
+					p := strings.SplitN(e, "=", 2)
+					if len(p) != 2 {
+						return nil, false
+					}
+					k, ok1 := UnX("x" + p[0])
+					v, ok2 := UnX("x" + p[1])
+					if !ok1 || !ok2 || isPropertyFrameworkKeyC11(string(k)) || (i > 0 && string(k) <= prev) {
+						return nil, false
+					}
+					prev = string(k)
+					inp.mk, inp.mv = append(inp.mk, string(k)), append(inp.mv, string(v))
+				}
+			}
+			s.inputs = append(s.inputs, inp)
 		}
 		kind := ""
 		for _, in := range s.inputs {
@@ -273,6 +293,19 @@ func c11InputBatch(in c11Input, _ bool) (arrow.RecordBatch, *arrow.Schema) {
 	arr := b.NewArray()
 	defer arr.Release()
 	return array.NewRecordBatch(scriptValueSchema, []arrow.Array{arr}, int64(len(in.vals))), scriptValueSchema
+}
+
+func isPropertyFrameworkKeyC11(k string) bool {
+	return k == vgirpc.MetaStreamState || k == vgirpc.MetaCallState || k == vgirpc.MetaCancel
+}
+
+// withMeta attaches custom metadata to a batch (returns a new owned batch).
+func withMeta(b arrow.RecordBatch, keys, values []string) arrow.RecordBatch {
+	if len(keys) == 0 {
+		b.Retain()
+		return b
+	}
+	return array.NewRecordBatchWithMetadata(b.Schema(), b.Columns(), b.NumRows(), arrow.NewMetadata(keys, values))
 }
 
 // clientView is what a client saw of one session.
@@ -384,7 +417,9 @@ func c11Pipe(s *c11Session) clientView {
 				md := arrow.NewMetadata([]string{vgirpc.MetaCancel}, []string{"1"})
 				b = array.NewRecordBatchWithMetadata(schema, proto.Columns(), 0, md)
 			} else {
-				b, _ = c11InputBatch(inp, false)
+				raw, _ := c11InputBatch(inp, false)
+				b = withMeta(raw, inp.mk, inp.mv)
+				raw.Release()
 			}
 			if err := w.Write(b); err != nil {
 				panic(err)
@@ -520,9 +555,10 @@ func c11HTTP(s *c11Session, cfg c11Cfg) clientView {
 	if !consume(res, true) {
 		return v
 	}
-	cont := func(batch arrow.RecordBatch, schema *arrow.Schema, cancel bool) []byte {
+	cont := func(batch arrow.RecordBatch, schema *arrow.Schema, cancel bool, mk, mv []string) []byte {
 		keys := []string{vgirpc.MetaStreamState, vgirpc.MetaCallState}
 		vals := []string{tok, call}
+		keys, vals = append(keys, mk...), append(vals, mv...)
 		if cancel {
 			keys = append(keys, vgirpc.MetaCancel)
 			vals = append(vals, "1")
@@ -546,7 +582,7 @@ func c11HTTP(s *c11Session, cfg c11Cfg) clientView {
 			}
 			schema := arrow.NewSchema(nil, nil)
 			b := array.NewRecordBatch(schema, nil, 0)
-			res := post("/"+s.method+"/exchange", cont(b, schema, false))
+			res := post("/"+s.method+"/exchange", cont(b, schema, false, nil, nil))
 			b.Release()
 			if !consume(res, false) {
 				return v
@@ -561,7 +597,7 @@ func c11HTTP(s *c11Session, cfg c11Cfg) clientView {
 			schema = arrow.NewSchema(nil, nil)
 			b = array.NewRecordBatch(schema, nil, 0)
 		}
-		res := post("/"+s.method+"/exchange", cont(b, schema, inp.cancel))
+		res := post("/"+s.method+"/exchange", cont(b, schema, inp.cancel, inp.mk, inp.mv))
 		b.Release()
 		if inp.cancel {
 			v.term = "cancel"
@@ -653,9 +689,19 @@ func c11DiffClass(s *c11Session, pv, hv clientView) string {
 		}
 	}
 	tokenKeyEmit := strings.Contains(s.prog, hx(vgirpc.MetaStreamState)+"=") || strings.Contains(s.prog, hx(vgirpc.MetaCallState)+"=")
+	echoesInputMeta := false
+	if strings.Contains(s.prog, "E0:") || strings.Contains(s.prog, "E1:") {
+		for _, in := range s.inputs {
+			if len(in.mk) > 0 {
+				echoesInputMeta = true
+			}
+		}
+	}
 	switch {
 	case pv.header != hv.header:
 		return "header-differs-" + kind
+	case echoesInputMeta:
+		return "handler-input-metadata-differs-" + kind
 	case tokenKeyEmit:
 		return "emit-metadata-token-key-changes-http-view"
 	case s.pad != "" && (strings.Contains(hv.term, "badToken") || strings.HasPrefix(hv.term, "http")):
